@@ -224,3 +224,5 @@ INFO = dict(
     outside=["IEEE underflow/rounding for the solver-decided part (one concrete float guard `rescaled_underflow` on a 240/400-token context is included and says so)", "Earley.logp", "non-linear recursion", "contexts beyond the bound"],
     assumptions=["weights >= 0", "finite total weight (pivots > 0)"],
 )
+
+INFO["technique"] = 'symbolic execution of the three grammar LMs with z3 real weights; z3 proves normalisation, proportionality to prefix weights and the chain rule per context; bounded (+1 concrete float guard)'
